@@ -71,6 +71,9 @@ def structures(tier, seed):
         if {p, q} <= set(HIST_OPS):
             continue
         out.append({"sid": f"history;{p}-then-{q}", "part": "history", "seq": [p, q]})
+    # a registration in between: afterwards the Grid answers like a Grid that never saw the earlier queries (no stale cache)
+    for first in ("L", "K", "M"):
+        out.append({"sid": f"history;{first}-then-Z-then-{first}", "part": "history", "seq": [first, "Z", first], "fresh_prefix": ["Z"]})
     for trip in (("J", "K", "M"), ("K", "J", "L"), ("A", "J", "K")):
         out.append({"sid": f"history;{'-then-'.join(trip)}", "part": "history", "seq": list(trip)})
     for trip in (("A", "C", "B"), ("D", "A", "E"), ("G", "A", "G"), ("C", "E", "D"), ("I", "A", "B")):
@@ -126,6 +129,7 @@ def run_history(s):
             "K": lambda g: g.integrate(o, "X"),
             "L": lambda g: g.get_metric(o, ("X",)),
             "M": lambda g: g.interp(c, "X", to="outer", metric_weighted=("X",)),
+            "Z": lambda g: g.set_metrics(("X",), "dx_c2", overwrite=True),
         }
 
         def run(g, name):
@@ -156,6 +160,8 @@ def run_history(s):
             if canary:
                 GR.Grid._complete_user_kwargs_using_axis_defaults = orig
         g2 = w.grid(ds, layout, **gk)
+        for name in s.get("fresh_prefix") or []:
+            run(g2, name)
         fresh = run(g2, last)
         covers["history"] = covers.get("history", 0) + 1
         oblige("same-exit-kind-as-on-a-fresh-grid", after[0] == fresh[0] and (after[0] == "returned" or after[1] == fresh[1]), detail=f"{after[0]} vs {fresh[0]}")
@@ -177,7 +183,7 @@ def run_history(s):
     for name, ob in rep.merged().items():
         rec = {"fn": "history", "clause": name, "status": ob.status, "time": ob.time, "detail": ob.detail}
         if ob.status == "failed":
-            rec["witness"] = {"op": "history", "seq": s["seq"], "detail": ob.detail, "model": {k: v for k, v in model_values(ob.model).items() if k != "__funcs__"}}
+            rec["witness"] = {"op": "history", "seq": s["seq"], "fresh_prefix": s.get("fresh_prefix"), "detail": ob.detail, "model": {k: v for k, v in model_values(ob.model).items() if k != "__funcs__"}}
         if canary:
             if name == "same-values-as-on-a-fresh-grid":
                 rec["canary"] = True
@@ -246,7 +252,7 @@ def build(w, kind):
     if kind.startswith("fc"):
         dims["face"] = 2
     X, Y, Z = layout["X"], layout["Y"], layout["Z"]
-    dv = {"dx_c": (X["center"],), "dx_l": (X["left"],), "dy_c": (Y["center"],), "dz_c": (Z["center"],), "dz_o": (Z["outer"],),
+    dv = {"dx_c": (X["center"],), "dx_c2": (X["center"],), "dx_l": (X["left"],), "dy_c": (Y["center"],), "dz_c": (Z["center"],), "dz_o": (Z["outer"],),
           "area_c": (X["center"], Y["center"])}
     ds = w.dataset(dims, coords={d: (d,) for d in dims if d != "face"}, data_vars=dv)
     return layout, ns, dims, ds
@@ -606,6 +612,7 @@ def replay_history(ob):
     ds["dx_c"] = ("x_c", rng.random(n) + 1)
     ds["dx_l"] = ("x_l", rng.random(n) + 1)
     ds["dy_c"] = ("y_c", rng.random(n) + 1)
+    ds["dx_c2"] = ("x_c", rng.random(n) * 10 + 5)
     coords = {"X": {"center": "x_c", "left": "x_l", "outer": "x_o"}, "Y": {"center": "y_c", "left": "y_l"}, "Z": {"center": "z_c", "outer": "z_o"}}
     mets = {("X",): ["dx_c"], ("Y",): ["dy_c"]} if set(seq) & set(HIST_METRIC_OPS) else {("X",): ["dx_c", "dx_l"], ("Y",): ["dy_c"]}
     mk = lambda: xgcm.Grid(ds, coords=coords, periodic=False, boundary={"X": "fill", "Y": "extend", "Z": "fill"}, fill_value=7.5, metrics=mets, autoparse_metadata=False)  # noqa
@@ -628,6 +635,7 @@ def replay_history(ob):
         "U": lambda g: g.diff(c, "X", to="outer", boundary="extend"),
         "J": lambda g: g.integrate(u, "X"), "K": lambda g: g.integrate(o, "X"), "L": lambda g: g.get_metric(o, ("X",)),
         "M": lambda g: g.interp(c, "X", to="outer", metric_weighted=("X",)),
+        "Z": lambda g: g.set_metrics(("X",), "dx_c2", overwrite=True),
     }
 
     def run(g, name):
@@ -639,7 +647,10 @@ def replay_history(ob):
     for name in seq[:-1]:
         run(g1, name)
     after = run(g1, seq[-1])
-    fresh = run(mk(), seq[-1])
+    g2 = mk()
+    for name in ob["witness"].get("fresh_prefix") or []:
+        run(g2, name)
+    fresh = run(g2, seq[-1])
     text = [f"sequence {' ; '.join(seq)} on one Grid vs {seq[-1]} on a fresh Grid"]
     if after[0] != fresh[0]:
         return {"confirmed": True, "text": "\n".join(text + [f"after the history: {after[0]} {after[1] if after[0] == 'raised' else ''}; fresh: {fresh[0]}"])}
